@@ -1081,7 +1081,9 @@ static ASTNode *parse_prefix_op(Stage1Parser *p) {
                 capacity *= 2;
                 args = realloc(args, sizeof(ASTNode*) * capacity);
             }
-            args[count++] = parse_expression(p);
+            ASTNode *arg = parse_expression(p);
+            if (!arg) break;  /* error already reported; never spin on a token that cannot start an expression */
+            args[count++] = arg;
         }
 
         if (!expect(p, TOKEN_RPAREN, "Expected ')' after prefix operation")) {
@@ -1122,7 +1124,9 @@ static ASTNode *parse_prefix_op(Stage1Parser *p) {
                 capacity *= 2;
                 args = realloc(args, sizeof(ASTNode*) * capacity);
             }
-            args[count++] = parse_expression(p);
+            ASTNode *arg = parse_expression(p);
+            if (!arg) break;  /* error already reported; never spin on a token that cannot start an expression */
+            args[count++] = arg;
         }
 
         if (!expect(p, TOKEN_RPAREN, "Expected ')' after function call")) {
@@ -1456,7 +1460,9 @@ static ASTNode *parse_primary(Stage1Parser *p) {
                     capacity *= 2;
                     elements = realloc(elements, sizeof(ASTNode*) * capacity);
                 }
-                elements[count++] = parse_expression(p);
+                ASTNode *elem = parse_expression(p);
+                if (!elem) break;  /* error already reported; do not loop on an unconsumable token */
+                elements[count++] = elem;
                 
                 /* Check for comma or end of array */
                 if (match(p, TOKEN_COMMA)) {
